@@ -51,6 +51,14 @@ def shard(s):
             for k in range(16):
                 _consume(acc, R.spell_covering(pat, k))
             _consume(acc, R.spell_rotating(pat))
+    elif kind == "SCAN":
+        from ..engines.history import fresh_world
+        fresh_world()     # module-level tables start empty; lengths then come strictly ascending (or descending)
+        Ns = list(range(2, s[1] + 1))
+        for N in (Ns if s[2] == "up" else reversed(Ns)):
+            for pat in ("+" * N, ("+-" * N)[:N - 1] + "+", "+" + "0" * (N - 2) + "-", "-" + "0+" * ((N - 2) // 2) + "0" * ((N - 2) % 2) + "-"):
+                if len(pat) == N:
+                    _consume(acc, R.spell_rotating(pat, N))
     elif kind == "LONG":
         for pat in spaces.long_family(s[1]):
             _consume(acc, R.spell_rotating(pat, s[1]))
@@ -67,14 +75,17 @@ def run(tier, seed, t0):
     shards += [("R", N, 3) for N in range(RN, 1, -1)]
     LN = (64, 127, 128, 129, 200, 256) if tier == "quick" else (64, 127, 128, 129, 200, 255, 256, 257, 300, 400, 512, 700, 1000)
     shards += [("LONG", N) for N in LN]
+    SC = 200 if tier == "quick" else 520
+    shards = [("SCAN", SC, "up"), ("SCAN", SC, "down")] + shards
     acc = core.pmap(shard, shards)
     return core.finish(
         PROP, tier, seed, acc, t0,
         rule="every charge pattern of length 1..%d (K/E/G), every pattern of length 1..%d in 17 spellings covering all 20 "
              "residues, every <=3-run pattern of length 2..%d, a structured family of long patterns (homopolymers, 2/3-block, periodic) "
-             "at lengths %s; one real get_SCD() call each, compared with "
+             "at lengths %s, and EVERY length 2..%d in strictly ascending and strictly descending order in a freshly imported package (4 "
+             "patterns with charged termini per length); one real get_SCD() call each, compared with "
              "(1/N) sum_{m>n} q_m q_n sqrt(m-n) evaluated with integer pair counts per distance and math.fsum; "
-             "non-trivial = reference SCD != 0" % (L, L2, RN, list(LN)),
+             "non-trivial = reference SCD != 0" % (L, L2, RN, list(LN), SC),
         bounds={"L_base": L, "L_spellings": L2, "runlength_N": RN, "tolerance_rel": 1e-9},
         assumptions=["reference: vmc/refmodel/charge.py:scd"])
 
